@@ -352,7 +352,7 @@ def _run_group(g, r, sdir, log):
         for x in _parse_cbmc_json(out):
             if isinstance(x, dict) and 'properties' in x:
                 for p in x['properties']:
-                    if p.get('description', '').startswith('VF-CANARY'):
+                    if p.get('description', '').startswith('VF-CANARY') and p['name'].split('.')[0] in (g.harness, 'abort'):
                         props.append((p['name'], p['description']))
         if not props:
             raise Infra("vacuity guard: no canary in the instrumented program")
@@ -376,6 +376,9 @@ def _run_group(g, r, sdir, log):
         for p in res:
             d = p.get('description', '')
             if not d.startswith('VF-CANARY'):
+                continue
+            fn_ = p.get('property', '').split('.')[0]
+            if fn_ not in (g.harness, 'abort'):
                 continue
             reached = p.get('status') == 'FAILURE'
             r.cover_total += 1
